@@ -355,4 +355,59 @@ example : (mpq_div exm 4 5 2 3 4 5 6 7 8 9 10).map (fun s => (s.ok, valOf s 4, v
 example : (mpq_div exm 2 3 2 3 4 5 6 7 8 9 10).map (fun s => (s.ok, valOf s 2, valOf s 3)) = some (true, -27, 245 * (B : Int)) := by
   decide +kernel
 
+/-! ## mpq_div_2exp (mpq/md_2exp.c), zero numerator -/
+
+/-- mpq_div_2exp with NUM (src) = 0 (md_2exp.c:93-99), dst any variable whose two fields differ: `SIZ (num) = 0`, `SIZ (den) = 1`
+    and the store `den->_mp_d[0] = 1` — WITHOUT any MPZ_REALLOC, which is safe because every block has at least one limb.
+    Result 0/1, both fields well formed, nothing else touched, allocations unchanged. -/
+theorem mpq_div_2exp_zero_alloc_safe (s : St) (dn dd sn sd n : Nat) (hs : s.ok = true)
+    (hdn : OWF (s.h dn)) (hdd : OWF (s.h dd)) (hf : dn ≠ dd) (h0 : (s.h sn).size = 0) :
+    let s' := mpq_div_2exp s dn dd sn sd n
+    s'.ok = true ∧ OWF (s'.h dn) ∧ OWF (s'.h dd) ∧ (∀ x, x ≠ dn → x ≠ dd → s'.h x = s.h x) ∧
+    valOf s' dn = 0 ∧ valOf s' dd = 1 ∧ s'.ALLOC dn = s.ALLOC dn ∧ s'.ALLOC dd = s.ALLOC dd := by
+  intro s'
+  have W1 := setSize_zero_wrote s dn hs hdn
+  set s1 := s.setSize dn 0 with hs1
+  set s2 := s1.setSize dd 1 with hs2
+  have e : s' = s2.wr (s2.PTR dd) [1] := by
+    simp only [s', mpq_div_2exp, St.SIZ, h0, beq_self_eq_true, if_true, St.store, Ptr.add, St.PTR]; rfl
+  have hdd1 : s1.h dd = s.h dd := setSize_other _ _ _ (Ne.symm hf)
+  have ha : 1 ≤ (s.h dd).buf.alloc := by have := hdd.2.1; simpa [view] using this
+  have hbuf2 : (s2.h dd).buf = (s.h dd).buf := by rw [hs2, setSize_buf, hdd1]
+  have hroom : (s2.PTR dd).off + [1].length ≤ (s2.h (s2.PTR dd).id).buf.alloc := by
+    simp only [St.PTR, List.length_singleton, hbuf2]; omega
+  have hlimbs := wr_limbs s2 (s2.PTR dd) [1] hroom
+  have hview : view ((s2.wr (s2.PTR dd) [1]).h dd) = ⟨(s.h dd).buf.alloc, 1, [1]⟩ := by
+    have hl : ((s2.wr (s2.PTR dd) [1]).h dd).buf.limbs = 1 :: (s.h dd).buf.limbs.drop 1 := by
+      have := hlimbs
+      have hid : (s2.PTR dd).id = dd := rfl
+      have hoff : (s2.PTR dd).off = 0 := rfl
+      rw [hid, hoff, hbuf2] at this
+      simpa using this
+    simp only [view, wr_size, wr_alloc, hl, hbuf2]
+    simp [hs2]
+  rw [e]
+  refine ⟨?_, ?_, ⟨?_, ?_⟩, ?_, ?_, ?_, ?_, ?_⟩
+  · rw [wr_ok]
+    have hlv : s2.live (s2.PTR dd) = true := by simp [St.live, St.PTR]
+    rw [hlv]
+    have : s2.ok = true := by simpa [hs2, hs1] using hs
+    rw [this]; simpa using hroom
+  · rw [wr_other _ _ _ (by simpa [St.PTR] using hf), hs2, setSize_other _ _ _ hf]; exact W1.owf
+  · apply wr_BWF _ _ (by intro x hx; simp at hx; subst hx; exact Nat.lt_of_lt_of_le (by decide) (Nat.le_refl B))
+    rw [hbuf2]; exact hdd.1
+  · rw [hview]
+    refine ⟨ha, by simpa using ha, rfl, by intro x hx; simp at hx; subst hx; unfold B; norm_num, by simp⟩
+  · intro x h1 h2
+    rw [wr_other _ _ _ (by simpa [St.PTR] using h2), hs2, setSize_other _ _ _ h2, hs1, setSize_other _ _ _ h1]
+  · unfold valOf
+    rw [wr_other _ _ _ (by simpa [St.PTR] using hf), hs2, setSize_other _ _ _ hf]; exact W1.val
+  · unfold valOf; rw [hview]; simp [Mpz.toInt, val]
+  · simp only [St.ALLOC, wr_alloc, hs2, hs1, setSize_buf]
+  · simp only [St.ALLOC, wr_alloc, hs2, hs1, setSize_buf]
+
+-- 0/1 divided by 2^200 into the variable (2, 3) (blocks of 2 and 3 limbs): 0/1, blocks kept
+example : (mpq_div_2exp exq 2 3 4 5 200).ok = true ∧ view ((mpq_div_2exp exq 2 3 4 5 200).h 2) = ⟨2, 0, []⟩ ∧
+    view ((mpq_div_2exp exq 2 3 4 5 200).h 3) = ⟨3, 1, [1]⟩ := by decide
+
 end Mpir.AllocSafe6
